@@ -241,6 +241,28 @@ def execute(plan):
                 stats["or.reduced_maxcor_iteration"] += 1
                 if ra.result_digest() != rb.result_digest():
                     add("reduced_maxcor.next_iterate", k, {"maxcor_new": m2, "pairs_in_checkpoint": npairs})
+                # (3b) the same restart when the checkpoint already meets the target (the solver returns
+                # before doing anything): the memory it hands back - whole or cut to the most recent
+                # m2 pairs - must resume like the checkpoint itself
+                if cfg.get("scaler") is None and cfg.get("ftarget") is None and np.isfinite(ck["fun"]):
+                    c3 = dict(c2)
+                    c3["ftarget"] = float(ck["fun"]) + 1.0 + abs(float(ck["fun"]))
+                    r3 = restart_once(problem, c3, Store.loads(blob), k + 1)
+                    stats["activations"] += 1
+                    stats["or.reduced_maxcor_target_met"] += 1
+                    if r3.result is None:
+                        add("restart.raised", k, {"kind": "reduced-target-met", **raise_witness(r3)})
+                    else:
+                        s3 = snapshot(r3.result)
+                        m3 = s3["sk"].shape[0]
+                        ok3 = m3 in (m2, npairs) and pairs_close(s3["sk"], s3["yk"], ck["sk"][-m3:], ck["yk"][-m3:], ck)[0]
+                        if not ok3:
+                            add("reduced_maxcor.pairs", k, {"maxcor_new": m2, "pairs_in_checkpoint": npairs, "pairs_returned": int(m3), "path": "target already met"})
+                        else:
+                            rc = restart_once(problem, c2, Store.loads(Store.dumps(r3.result)), k + 1)
+                            stats["activations"] += 1
+                            if rc.result_digest() != ra.result_digest():
+                                add("reduced_maxcor.next_iterate", k, {"maxcor_new": m2, "pairs_in_checkpoint": npairs, "path": "through a result returned because the target was met"})
 
     # (4) chains of restarts
     ks = sorted(j for j in R if j <= K and _valid_stop(R[j].result, j))
